@@ -173,7 +173,9 @@ pub struct Exec<'a> {
     pub model: Model,
     stats: Stats,
     answers: Vec<(usize, String)>,
-    cps: Vec<Option<(PathBuf, usize)>>,
+    /// checkpoints: directory and the model as it was when the checkpoint was taken (any of them can be restored at
+    /// any later time, also one that is NEWER than the present state after an earlier restore)
+    cps: Vec<Option<(PathBuf, Model)>>,
     phys_counter: u64,
     compactions: u64,
     step_idx: usize,
@@ -1009,7 +1011,7 @@ impl<'a> Exec<'a> {
                 if let Err(e) = self.tree().create_checkpoint(&p) {
                     return self.fail_aux("checkpoint-error", format!("create_checkpoint failed: {}", err_name(&e)), self.aux());
                 }
-                self.cps[n] = Some((p, self.model.len()));
+                self.cps[n] = Some((p, self.model.clone()));
                 self.stats.inc("checkpoints");
                 tokio::task::yield_now().await;
                 self.after_phys("checkpoint")?;
@@ -1019,22 +1021,21 @@ impl<'a> Exec<'a> {
                     return Ok(());
                 }
                 let n = *n as usize % self.cps.len();
-                let Some((p, len)) = self.cps[n].clone() else { return Ok(()) };
+                let Some((p, saved)) = self.cps[n].clone() else { return Ok(()) };
                 self.drop_all_slots();
                 let later_phys = self.phys_counter;
                 if let Err(e) = self.tree().restore_from_checkpoint(&p) {
                     return self.fail_aux("restore-error", format!("restore_from_checkpoint failed: {}", err_name(&e)), self.aux());
                 }
-                let discarded = self.model.len() - len;
-                self.model.truncate(len);
-                for i in 0..self.cps.len() {
-                    if let Some((q, l)) = self.cps[i].clone() {
-                        if l > len {
-                            crate::util::rm_rf(&q);
-                            self.cps[i] = None;
-                        }
-                    }
+                // commits of the present timeline that the checkpoint does not contain
+                let common = self.model.commits.iter().zip(saved.commits.iter()).take_while(|(a, b)| a == b).count();
+                let discarded = self.model.len() - common;
+                if saved.len() > common {
+                    // the checkpoint holds commits the present state does not have (it was taken before an earlier restore
+                    // to an older checkpoint): a restore "forwards"
+                    self.stats.inc("restores_forward");
                 }
+                self.model = saved;
                 self.stats.inc("restores");
                 if discarded > 0 {
                     self.stats.inc("restores_discarding");
@@ -1048,8 +1049,8 @@ impl<'a> Exec<'a> {
                     return Ok(());
                 }
                 let n = *n as usize % self.cps.len();
-                let Some((p, len)) = self.cps[n].clone() else { return Ok(()) };
-                self.open_checkpoint_standalone(&p, len).await?;
+                let Some((p, saved)) = self.cps[n].clone() else { return Ok(()) };
+                self.open_checkpoint_standalone(&p, &saved).await?;
             }
         }
         Ok(())
@@ -1124,7 +1125,7 @@ impl<'a> Exec<'a> {
         self.sweep(what)
     }
 
-    async fn open_checkpoint_standalone(&mut self, p: &Path, len: usize) -> R<()> {
+    async fn open_checkpoint_standalone(&mut self, p: &Path, saved: &Model) -> R<()> {
         let tmp = self.dir.join("cp_open");
         crate::util::rm_rf(&tmp);
         if let Err(e) = crate::util::copy_dir(p, &tmp) {
@@ -1135,7 +1136,7 @@ impl<'a> Exec<'a> {
             Ok(t) => t,
             Err(e) => return self.fail("checkpoint-open-failed", format!("opening checkpoint dir standalone failed: {}", err_name(&e))),
         };
-        let exp: Vec<(Key, Val)> = self.model.scan(len, None, None);
+        let exp: Vec<(Key, Val)> = saved.scan(saved.len(), None, None);
         let r: R<()> = (|| {
             let txn = match t.begin_with_mode(Mode::ReadOnly) {
                 Ok(t) => t,
